@@ -34,15 +34,18 @@ Definition spec_demands (s : outcome) (o : obs) : bool :=
   | _, _ => false
   end.
 
-(* v_class = 0 exactly inside the guard of C12_binds_exactly (the model is the present code, pre = false).
-   Outside it the listed finding is class 6 ONLY when the faithful model reproduces the observation bug for bug;
-   an observation outside the guard that neither the model nor the spec explains gets class 8, which is no listed
-   finding: a different failure on such a program is still a violation.
+(* v_class = 0 exactly inside the guard of C12_binds_exactly (in_guard; the model is the present code, pre = false).
+   Outside it the listed findings are class 6 (a nullish str default) and class 9 (a positional-only parameter) ONLY when
+   the faithful model reproduces the observation bug for bug; an observation outside the guard that neither the model
+   nor the spec explains gets class 8 / 10, which is no listed finding: a different failure on such a program is still
+   a violation.
    (Classes 1-5, 7 belonged to the three findings repaired in /repo.) *)
 Definition judge1 (c : case) : verdict :=
   let m := model_explains (auto_cli false conv_simple (c_aspos c) (c_comps c) (c_toks c)) (c_obs c) in
   {| v_model := m;
-     v_class := if negb (no_nullish_str_default (c_comps c)) then (if m then 6%N else 8%N) else 0%N;
+     v_class := if in_guard (c_comps c) then 0%N
+                else if negb (no_nullish_str_default (c_comps c)) then (if m then 6%N else 8%N)
+                else (if m then 9%N else 10%N);   (* = negb (no_positional_only ..): C12_guard_is_neither_finding_class *)
      v_spec := spec_demands (spec conv_simple (c_aspos c) (c_comps c) (c_toks c)) (c_obs c) |}.
 
 Definition judge (cs : list case) := judge_all judge1 cs.
